@@ -6,6 +6,7 @@ import TsVerif.C02.WidthProps
 import TsVerif.C02.LexYields
 import TsVerif.C02.ModelDriver
 import TsVerif.C02.Round11
+import TsVerif.C02.Round11b
 #print axioms TsVerif.C02.summarize_padding_size
 #print axioms TsVerif.C02.spans_nested
 #print axioms TsVerif.C02.siblings_ordered
@@ -76,3 +77,7 @@ import TsVerif.C02.Round11
 #print axioms TsVerif.C02.newErrorLeaf_shift_ok
 #print axioms TsVerif.C02.accept_tiles
 #print axioms TsVerif.C02.parse_tiles
+#print axioms TsVerif.C02.newLeaf_inline_symbol_lt
+#print axioms TsVerif.C02.newLeaf_inline_symbol_survives_u8
+#print axioms TsVerif.C02.newLeaf_wide_symbol_on_heap
+#print axioms TsVerif.C02.newMissingLeaf_inline_symbol_lt
